@@ -3,18 +3,28 @@
 P  lean/MjProof/Props/C29.lean (over the reals, about Model/Passive.lean built on the generated polynomial kernels):
    spring force = -(k x + p0 x^2 + p1 x^3) = -dV/dq of the potential mj_energyPos reports (HasDerivAt; slide/hinge
    and tendon springs incl. the deadband kinks), free-joint translational law, damper / tendon-damper power <= 0 for
-   non-negative coefficients, gravity compensation = -gravcomp x weight through any Jacobian column, zero force at rest.
+   non-negative coefficients, gravity compensation = -gravcomp x weight through any Jacobian column, zero force at rest;
+   the GATES are exact: flg_gravcomp (as setFixed derives it from body_gravcomp) is set iff some body has gravcomp > 0,
+   and whatever path mj_gravcomp takes (entry test on flg_gravcomp / gravity switch / |gravity|, body skip, has_gravcomp
+   in mj_passive) every body receives exactly -gravcomp*mass*gravity (non-negative coefficients; the hypothesis is
+   needed: negative_gravcomp_dropped); what mjDSBL_SPRING / mjDSBL_DAMPER switch off.
 T  (a) c2lean kernels mju_polyForce (spring / damper variants), mju_polyPotential, mjd_xPolyForce regenerated and
        validated bitwise on every run;
    (b) per-element differential against the REAL engine: model parameters and state are read from mjModel / mjData
-       through harness/c/engine_repl.c, fed to drv_c29 (the Lean model on Float), and the results are compared
-       BITWISE with qfrc_spring / qfrc_damper / qfrc_passive (every dof: joint term, then the tendon terms
-       accumulated in tendon order) and qfrc_gravcomp on the translational dofs of top-level free joints.
+       through harness/c/engine_repl.c, fed to drv_c29 (the Lean model on Float, incl. the switches and the gates), and
+       the results are compared BITWISE with qfrc_spring / qfrc_damper / qfrc_passive (every dof: joint term, then the
+       tendon terms accumulated in tendon order; whether qfrc_gravcomp is added is decided by the Lean gate model) and
+       qfrc_gravcomp on the translational dofs of top-level free joints (all-zero when the model says nothing is applied);
+   (c) the derived model constants ngravcomp / flg_gravcomp of the real mj_compile and of the real mj_setConst after a
+       runtime edit of body_gravcomp (harness/c/c29_gate.c) against the Lean model of setFixed, exactly.
 S  property oracle on the engine alone (independent Python recomputation from parameters and state, 1e-12 relative):
-   spring / damper laws for all four joint types and tendons, qfrc_passive = spring + damper (+ gravcomp unless
-   actgravcomp), dissipation qvel.qfrc_damper <= 0, finite difference of the reported potential energy = -qfrc_spring
-   (gravity off), gravcomp = J^T(-gravcomp m g) via the engine's own applied-force path and = gravcomp * qfrc_bias
-   at rest for uniform gravcomp, zero passive force at rest at the spring reference.
+   spring / damper laws for all four joint types and tendons under the switches, qfrc_passive = spring + damper
+   (+ gravcomp unless actgravcomp), dissipation qvel.qfrc_damper <= 0, finite difference of the reported potential
+   energy = -qfrc_spring (gravity off), gravcomp = J^T(-gravcomp m g) via the engine's own applied-force path (compiled
+   model and after the runtime edit), END TO END: the change of qfrc_smooth caused by gravcomp (through qfrc_passive or,
+   for actgravcomp joints, qfrc_actuator) equals that force, = gravcomp * qfrc_bias at rest for uniform gravcomp, zero
+   passive force at rest at the spring reference.  Generated gravcomp placements are structured (only jointless bodies
+   welded to moving ones, only jointed, single, only world-fixed, leaves, mixed; the distribution is in the evidence).
 """
 import math
 import subprocess
@@ -24,9 +34,9 @@ from gen.enums import E
 from gen.models import ModelGen, unit_quat
 
 META = {
-    "technique": "hand-written executable Lean model of the per-joint / per-dof / per-tendon / per-body computations of mj_springdamper, mj_gravcomp and the summation of mj_passive over the law-free number class MjNum, built on c2lean-generated kernels (mju_polyForce for springs and dampers, mju_polyPotential, mju_subQuat, mju_normalize4, mju_norm3; regenerated and validated bitwise each run); Lean 4 proofs over the reals (ring, positivity / nlinarith, HasDerivAt calculus with one-sided derivatives at the deadband ends); bitwise per-dof differential of the Float instance against qfrc_spring / qfrc_damper / qfrc_passive / qfrc_gravcomp of the real mj_forward on generated models; independent property oracle in Python",
-    "text": "Proved over the reals for the model (all parameter values and states): the generated kernels are the polynomials k + p0 x + p1 x^2, b + p0|v| + p1|v|^2 and k x^2/2 + p0 x^3/3 + p1 x^4/4; a slide / hinge spring produces -(k x + p0 x^2 + p1 x^3) with x = qpos - springref (-k x for a linear spring), which is minus the derivative of the potential mj_energyPos reports; the same for tendon springs with the springlength deadband at every length including both ends of the deadband; the translational spring of a free joint is -kappa(|dif|) dif; with non-negative coefficients a dof damper and a tendon damper mapped through its Jacobian row deliver non-positive power; the gravity-compensation force is -gravcomp*mass*gravity, so through any Jacobian column it is -gravcomp times gravity's contribution and cancels it exactly for gravcomp = 1; at zero velocity with every spring at its reference and every tendon inside its deadband all modelled passive terms vanish. Tied to /repo on every run by translation (kernels) and the bitwise per-dof differential against the real engine.",
-    "note": "Stated over the reals (rounding outside the proofs; the Float instance of the same definitions is compared bitwise with the engine). The flat qfrc arrays are modelled per dof (joint term, then tendon terms in tendon order); the index arithmetic, the tendon Jacobian itself, mj_applyFT (Jacobian of the body COM) and the ball-joint potential gradient are covered by the engine oracle only (finite differences of the reported energy, the engine's applied-force path), not by theorems. Not modelled: flex elasticity, fluid forces, passive contacts, adhesion, plugins / callbacks, sleeping. damper_power_nonpos needs non-negative coefficients: the compiler accepts negative damping (recorded in the evidence), for which the theorem negative_damping_adds_energy shows the damper adds energy; the documentation only says a positive coefficient gives the dissipative force.",
+    "technique": "hand-written executable Lean model of the per-joint / per-dof / per-tendon / per-body computations of mj_springdamper, mj_gravcomp (with its entry test, body skip and return value), the derivation of ngravcomp / flg_gravcomp in setFixed, the summation and the mjDSBL_SPRING / mjDSBL_DAMPER switches of mj_passive over the law-free number class MjNum, built on c2lean-generated kernels (mju_polyForce for springs and dampers, mju_polyPotential, mju_subQuat, mju_normalize4, mju_norm3; regenerated and validated bitwise each run); Lean 4 proofs over the reals (ring, positivity / nlinarith, HasDerivAt calculus with one-sided derivatives at the deadband ends); bitwise per-dof differential of the Float instance against qfrc_spring / qfrc_damper / qfrc_passive / qfrc_gravcomp of the real mj_forward on generated models and exact comparison of the derived constants ngravcomp / flg_gravcomp of the real mj_compile / mj_setConst; independent property oracle in Python incl. the end-to-end effect of gravity compensation on qfrc_smooth",
+    "text": "Proved over the reals for the model (all parameter values and states): the generated kernels are the polynomials k + p0 x + p1 x^2, b + p0|v| + p1|v|^2 and k x^2/2 + p0 x^3/3 + p1 x^4/4; a slide / hinge spring produces -(k x + p0 x^2 + p1 x^3) with x = qpos - springref (-k x for a linear spring), which is minus the derivative of the potential mj_energyPos reports; the same for tendon springs with the springlength deadband at every length including both ends of the deadband; the translational spring of a free joint is -kappa(|dif|) dif; with non-negative coefficients a dof damper and a tendon damper mapped through its Jacobian row deliver non-positive power; the gravity-compensation force is -gravcomp*mass*gravity, so through any Jacobian column it is -gravcomp times gravity's contribution and cancels it exactly for gravcomp = 1; at zero velocity with every spring at its reference and every tendon inside its deadband all modelled passive terms vanish; the tests that decide whether gravity compensation is computed at all are exact for non-negative coefficients (flg_gravcomp is set iff some body - jointed or not - has gravcomp > 0; entry test, body skip and has_gravcomp never drop a non-zero force; a body other than the world with positive gravcomp under non-zero enabled gravity always opens them), mjDSBL_SPRING / mjDSBL_DAMPER alone remove only their own term, both together everything (as documented). Tied to /repo on every run by translation (kernels) and the bitwise per-dof differential against the real engine.",
+    "note": "Findings on /repo kept as known (oracle keys): c29:actgravcomp-dropped-without-actuators (an actgravcomp joint in a model without actuators gets no compensation at all), c29:gravcomp-negative-only-dropped (setFixed counts gravcomp > 0, mj_gravcomp applies gravcomp != 0; theorem negative_gravcomp_dropped). Stated over the reals (rounding outside the proofs; the Float instance of the same definitions is compared bitwise with the engine). The flat qfrc arrays are modelled per dof (joint term, then tendon terms in tendon order); the index arithmetic, the tendon Jacobian itself, mj_applyFT (Jacobian of the body COM) and the ball-joint potential gradient are covered by the engine oracle only (finite differences of the reported energy, the engine's applied-force path), not by theorems. Not modelled: flex elasticity, fluid forces, passive contacts, adhesion, plugins / callbacks, sleeping. damper_power_nonpos needs non-negative coefficients: the compiler accepts negative damping (recorded in the evidence), for which the theorem negative_damping_adds_energy shows the damper adds energy; the documentation only says a positive coefficient gives the dissipative force.",
 }
 
 P = "MjProof.C29."
@@ -36,6 +46,8 @@ THEOREMS = [P + t for t in (
     "tendon_spring_poly", "tendon_spring_force_eq_neg_dV",
     "damper_force_poly", "damper_power_nonpos", "negative_damping_adds_energy", "tendon_damper_power_nonpos",
     "gravcomp_cancels_fraction", "gravcomp_full_cancels", "rest_zero_passive", "rest_zero_free",
+    "flgGravcomp_iff", "ngravcomp_cons", "gravcomp_entry_closed_zero", "gravcomp_gate_exact", "no_gravcomp_only_if_zero",
+    "gravcomp_gate_open", "negative_gravcomp_dropped", "gated_enabled", "switches_remove_only_their_term",
 )]
 KERNELS = ["mju_polyForce_spring", "mju_polyForce_damper", "mju_polyPotential_spring", "mjd_xPolyForce_spring",
            "mjd_xPolyForce_damper", "mju_subQuat", "mju_normalize4", "mju_norm3"]
@@ -54,13 +66,80 @@ PROFILE = {"nbody": (1, 5), "actuators": (0, 3), "actuator_kinds": ("motor",), "
 
 
 # ------------------------------------------------------------------------------------------ model generation
-def make_model(ctx, variant):
-    rng = ctx.rng
+PLACEMENTS = ("jointless-moving", "jointless-moving", "jointed", "single", "static-only", "leaf", "mixed")
+
+
+def gc_value(rng):
+    return rng.choice((1.0, 0.5, rng.uniform(0.05, 1.5)))
+
+
+def choose_placement(rng, nbody, jointed, parent, mode=None):
+    """structured choice of the set of bodies that carry gravcomp.  Bodies are 1..nbody-1 (0 = world), `jointed[b]`: the
+    body owns joints, `parent[b]`: parent id.  Returns (mode actually used, {body: gravcomp})."""
+    moving = [False] * nbody
+    for b in range(1, nbody):                      # parents precede children
+        moving[b] = jointed[b] or moving[parent[b]]
+    haschild = [False] * nbody
+    for b in range(1, nbody):
+        haschild[parent[b]] = True
+    mode = mode or rng.choice(PLACEMENTS)
+    bodies = list(range(1, nbody))
+    cand = {"jointless-moving": [b for b in bodies if moving[b] and not jointed[b]],
+            "jointed": [b for b in bodies if jointed[b]],
+            "static-only": [b for b in bodies if not moving[b]],
+            "leaf": [b for b in bodies if not haschild[b]],
+            "single": bodies, "mixed": bodies}[mode]
+    if not cand:
+        mode, cand = "single", bodies
+    if mode == "single":
+        pick = [rng.choice(cand)]
+    else:
+        pick = [b for b in cand if rng.random() < 0.6] or [rng.choice(cand)]
+    return mode, {b: gc_value(rng) for b in pick}
+
+
+def make_model(ctx, variant, rng=None):
+    rng = rng or ctx.rng
     prof = dict(PROFILE)
     if variant == "nogravity":
         prof["gravity"] = 0.0
         prof["gravcomp"] = 0.0
-    mdl = ModelGen(rng, prof).make()
+    if variant == "placed":
+        # gravity compensation is placed afterwards on a structured subset of the bodies (see choose_placement)
+        prof["gravcomp"] = 0.0
+        prof["static_body"] = 0.25
+        prof["gravity"] = 1.0
+    gen = ModelGen(rng, prof)
+    mdl = gen.make()
+    mdl.placement = None
+    if variant == "placed":
+        # payload bodies: jointless bodies welded to an existing body (preferably one that moves), possibly nested
+        L = mdl.lines.append
+        jointed_names = {j["body"] for j in mdl.joints}
+        info = [{"handle": 0, "parent": 0, "jointed": False}]
+        for b in mdl.bodies:
+            info.append({"handle": b["handle"], "parent": b["parent"], "jointed": b["name"] in jointed_names})
+        for k in range(rng.choice((1, 1, 2, 3))):
+            mov = [False] * len(info)
+            for i in range(1, len(info)):
+                mov[i] = info[i]["jointed"] or mov[info[i]["parent"]]
+            pool = [i for i in range(1, len(info)) if mov[i]]
+            pi = rng.choice(pool) if (pool and rng.random() < 0.85) else rng.randrange(1, len(info))
+            h = gen.newh()
+            name = "p%d" % (k + 1)
+            L("body %d %d" % (h, info[pi]["handle"]))
+            L("name %d %s" % (h, name))
+            L("set %d pos %s" % (h, " ".join(repr(rng.uniform(-0.5, 0.5)) for _ in range(3))))
+            if rng.random() < 0.5:
+                L("set %d quat %s" % (h, " ".join(repr(x) for x in unit_quat(rng))))
+            gen.add_geom(mdl, h, name)
+            info.append({"handle": h, "parent": pi, "jointed": False})
+        mode, placed = choose_placement(rng, len(info), [x["jointed"] for x in info], [x["parent"] for x in info])
+        for b in sorted(placed):
+            L("set %d gravcomp %r" % (info[b]["handle"], placed[b]))
+        if rng.random() < 0.3:
+            L("option gravity %r %r %r" % (rng.uniform(-6, 6), rng.uniform(-6, 6), rng.uniform(-10, 10)))
+        mdl.placement = mode
     lines = []
     uniform = rng.choice((1.0, 0.5, 0.3, 1.7)) if variant == "uniform" else None
     for l in mdl.lines:
@@ -73,6 +152,19 @@ def make_model(ctx, variant):
                 l += " %r %r" % (rng.choice((0.0, rng.uniform(-2, 2))), rng.choice((0.0, rng.uniform(0, 3))))
         if len(t) == 4 and t[0] == "set" and t[2] == "gravcomp" and uniform is not None:
             continue
+        if len(t) == 3 and t[0] == "option" and t[1] == "disableflags":
+            # the switches of mj_passive / mj_springdamper / mj_gravcomp
+            fl = int(t[2])
+            r = rng.random()
+            if r < 0.10:
+                fl |= E("mjDSBL_SPRING")
+            elif r < 0.20:
+                fl |= E("mjDSBL_DAMPER")
+            elif r < 0.25:
+                fl |= E("mjDSBL_SPRING") | E("mjDSBL_DAMPER")
+            if rng.random() < 0.06:
+                fl |= E("mjDSBL_GRAVITY")
+            l = "option disableflags %d" % fl
         lines.append(l)
         if t[0] == "tendon" and rng.random() < 0.5:
             lo = rng.uniform(-0.3, 0.3)
@@ -140,7 +232,7 @@ MODEL_FIELDS = ("jnt_type", "jnt_qposadr", "jnt_dofadr", "jnt_bodyid", "jnt_stif
                 "tendon_stiffnesspoly", "tendon_damping", "tendon_dampingpoly", "tendon_lengthspring", "tendon_actuatorid",
                 "actuator_damping", "actuator_dampingpoly", "actuator_gear", "actuator_outadr", "actuator_trnid", "actuator_trntype",
                 "ten_J_rownnz", "ten_J_rowadr", "ten_J_colind", "body_mass", "body_gravcomp", "body_parentid", "opt.gravity",
-                "opt.disableflags", "opt.enableflags", "qpos0")
+                "opt.disableflags", "opt.enableflags", "qpos0", "jnt_actfrclimited")
 DATA_FIELDS = ("qpos", "qvel", "qfrc_spring", "qfrc_damper", "qfrc_gravcomp", "qfrc_passive", "qfrc_bias", "qfrc_smooth",
                "ten_length", "ten_velocity", "ten_J", "energy", "xipos")
 
@@ -213,6 +305,9 @@ class Snapshot:
         self.mass, self.gc, self.parent = g("body_mass"), g("body_gravcomp"), gi("body_parentid")
         self.grav = g("opt.gravity")
         self.dflags, self.eflags = gi("opt.disableflags")[0], gi("opt.enableflags")[0]
+        self.dS, self.dD = bool(self.dflags & E("mjDSBL_SPRING")), bool(self.dflags & E("mjDSBL_DAMPER"))
+        self.dG, self.dA = bool(self.dflags & E("mjDSBL_GRAVITY")), bool(self.dflags & E("mjDSBL_ACTUATION"))
+        self.actfrclimited = gi("jnt_actfrclimited")
         self.qpos, self.qvel = g("qpos"), g("qvel")
         self.fs, self.fd, self.fg, self.fp = g("qfrc_spring"), g("qfrc_damper"), g("qfrc_gravcomp"), g("qfrc_passive")
         self.bias, self.smooth = g("qfrc_bias"), g("qfrc_smooth")
@@ -254,9 +349,41 @@ class Snapshot:
     def bits(self, f):
         return toks(self.raw[f])
 
-    def has_gravcomp(self):
-        gn = math.sqrt(sum(x * x for x in self.grav))
-        return (not (self.dflags & E("mjDSBL_GRAVITY"))) and gn != 0 and any(self.gc[b] != 0 for b in range(1, self.nbody))
+    def flagbits(self):
+        return "%d %d" % (self.dS, self.dD)
+
+    def gravity_on(self):
+        return (not self.dG) and any(x != 0 for x in self.grav)
+
+    def has_gravcomp(self, gc=None):
+        """oracle side (independent of the engine's derived constants and of the Lean model): gravity acts, mj_passive is
+        not switched off as a whole (documented: both mjDSBL_SPRING and mjDSBL_DAMPER disable ALL passive forces) and some
+        body other than the world has a non-zero coefficient"""
+        gc = self.gc if gc is None else gc
+        return self.gravity_on() and not (self.dS and self.dD) and any(gc[b] != 0 for b in range(1, self.nbody))
+
+    def jointed(self):
+        out = [False] * self.nbody
+        for b in self.jbody:
+            out[b] = True
+        return out
+
+    def gc_class(self, gc=None):
+        """where the compensated bodies sit: used for the input-distribution record"""
+        gc = self.gc if gc is None else gc
+        jointed, moving = self.jointed(), [False] * self.nbody
+        for b in range(1, self.nbody):
+            moving[b] = jointed[b] or moving[self.parent[b]]
+        cb = [b for b in range(1, self.nbody) if gc[b] != 0]
+        if not cb:
+            return "none"
+        if all(not moving[b] for b in cb):
+            return "static-only"
+        if all(not jointed[b] for b in cb):
+            return "jointless-only(some moving)"
+        if all(jointed[b] for b in cb):
+            return "jointed-only"
+        return "jointed+jointless"
 
     def tendon_terms(self):
         """per tendon: (x, fs, fd) recomputed in Python, or None if the engine skips it"""
@@ -266,13 +393,15 @@ class Snapshot:
             b, bp = self.eff_damping("tendon", i, self.tb[i], self.tbpoly[2 * i:2 * i + 2])
             L, lo, hi, v = self.tlen[i], self.tls[2 * i], self.tls[2 * i + 1], self.tvel[i]
             x = L - hi if L > hi else (L - lo if L < lo else 0.0)
-            out.append((x, -x * poly_spring(k, kp, x), -v * poly_damper(b, bp, v)))
+            out.append((x, 0.0 if self.dS else -x * poly_spring(k, kp, x), 0.0 if self.dD else -v * poly_damper(b, bp, v)))
         return out
 
     def expected(self):
         """independent recomputation of qfrc_spring, qfrc_damper from the documented laws"""
         fs, fd = [0.0] * self.nv, [0.0] * self.nv
-        for j in range(self.njnt):
+        if self.dS and self.dD:
+            return fs, fd           # documented: both switches set disable all passive forces
+        for j in range(self.njnt if not self.dS else 0):
             k, p = self.jk[j], self.jpoly[2 * j:2 * j + 2]
             qa, da, t = self.jqadr[j], self.jdadr[j], self.jtype[j]
             if t in (JSLIDE, JHINGE):
@@ -292,7 +421,7 @@ class Snapshot:
                 kk = poly_spring(k, p, r)
                 for i in range(3):
                     fs[da + i] = -kk * dif[i]
-        for i in range(self.nv):
+        for i in range(self.nv if not self.dD else 0):
             v = self.qvel[i]
             b, bp = self.eff_damping("joint", self.djnt[i], self.db[i], self.dpoly[2 * i:2 * i + 2])
             fd[i] = -v * poly_damper(b, bp, v)
@@ -305,6 +434,8 @@ class Snapshot:
     def potential(self):
         """spring potential from the documented law (for models without gravity: equals energy[0])"""
         e = 0.0
+        if self.dS:
+            return e                # mj_energyPos leaves the spring terms out with mjDSBL_SPRING
         for j in range(self.njnt):
             k, p = self.jk[j], self.jpoly[2 * j:2 * j + 2]
             qa, t = self.jqadr[j], self.jtype[j]
@@ -360,27 +491,58 @@ def lean_lines_pass1(s, eff):
 
     qb, qsb, vb = s.bits("qpos"), s.bits("qpos_spring"), s.bits("qvel")
     jk, jp = s.bits("jnt_stiffness"), s.bits("jnt_stiffnesspoly")
+    fl = s.flagbits()          # the switches mjDSBL_SPRING / mjDSBL_DAMPER: the gated definitions of the Lean model decide
     for j in range(s.njnt):
         t, qa = s.jtype[j], s.jqadr[j]
         kp = "%s %s %s" % (jk[j], jp[2 * j], jp[2 * j + 1])
         if t in (JSLIDE, JHINGE):
-            add(("js", j), "jspring %s %s %s" % (kp, qb[qa], qsb[qa]))
+            add(("js", j), "g:jspring %s %s %s %s" % (fl, kp, qb[qa], qsb[qa]))
         else:
             if t == JFREE:
-                add(("jl", j), "freelin %s %s %s" % (kp, " ".join(qb[qa:qa + 3]), " ".join(qsb[qa:qa + 3])))
+                add(("jl", j), "g:freelin %s %s %s %s" % (fl, kp, " ".join(qb[qa:qa + 3]), " ".join(qsb[qa:qa + 3])))
                 qa += 3
-            add(("jb", j), "ball %s %s %s" % (kp, " ".join(qb[qa:qa + 4]), " ".join(qsb[qa:qa + 4])))
+            add(("jb", j), "g:ball %s %s %s %s" % (fl, kp, " ".join(qb[qa:qa + 4]), " ".join(qsb[qa:qa + 4])))
     for i in range(s.nv):
-        add(("dd", i), "damper %s %s" % (eff[i], vb[i]))
+        add(("dd", i), "g:damper %s %s %s" % (fl, eff[i], vb[i]))
     tk, tkp = s.bits("tendon_stiffness"), s.bits("tendon_stiffnesspoly")
     tl, tls, tv = s.bits("ten_length"), s.bits("tendon_lengthspring"), s.bits("ten_velocity")
     for i in range(s.ntendon):
-        add(("tt", i), "tendon %s %s %s %s %s %s %s %s" % (tk[i], tkp[2 * i], tkp[2 * i + 1], eff[s.nv + i],
-                                                        tl[i], tls[2 * i], tls[2 * i + 1], tv[i]))
+        add(("tt", i), "g:tendon %s %s %s %s %s %s %s %s %s" % (fl, tk[i], tkp[2 * i], tkp[2 * i + 1], eff[s.nv + i],
+                                                             tl[i], tls[2 * i], tls[2 * i + 1], tv[i]))
+    # the gates of gravity compensation: flg_gravcomp as setFixed derives it from body_gravcomp, the entry test and the
+    # body loop of mj_gravcomp, has_gravcomp of mj_passive — all decided by the Lean model from the model constants
+    add(("gc",), gcstage_line(s, s.bits("body_gravcomp")))
+    add(("gf",), gcflags_line(s.bits("body_gravcomp")))
     return lines, idx
 
 
-def lean_lines_pass2(s, out1, idx):
+def gcstage_line(s, gcbits):
+    mb = s.bits("body_mass")
+    return "gcstage %s %d %s %d%s" % (s.flagbits(), s.dG, " ".join(s.bits("opt.gravity")), s.nbody,
+                                      "".join(" %s %s" % (mb[b], gcbits[b]) for b in range(s.nbody)))
+
+
+def gcflags_line(gcbits):
+    return "gcflags %d %s" % (len(gcbits), " ".join(gcbits))
+
+
+def parse_gcstage(out, nbody):
+    """-> (passiveHas, entry, has, [per body 1..: None | [fx, fy, fz] bit strings])"""
+    t = out.split()
+    forces, i = [], 3
+    while i < len(t):
+        if t[i] == "none":
+            forces.append(None)
+            i += 1
+        else:
+            forces.append(t[i:i + 3])
+            i += 3
+    if len(forces) != nbody - 1:
+        raise common.Infra("drv_c29 gcstage: %d forces for %d bodies" % (len(forces), nbody))
+    return t[0] == "1", t[1] == "1", t[2] == "1", forces
+
+
+def lean_lines_pass2(s, out1, idx, flags_impl=None):
     """accumulation + summation ops built from the Lean outputs of pass 1; returns [(line, engine value bits, what)]"""
     zero = fbits(0.0)
     base_s, base_d = [zero] * s.nv, [zero] * s.nv
@@ -407,14 +569,23 @@ def lean_lines_pass2(s, out1, idx):
             terms_d[s.colind[a]] += [Jb[a], f_d]
     cases = []
     es, ed, eg, ep = s.bits("qfrc_spring"), s.bits("qfrc_damper"), s.bits("qfrc_gravcomp"), s.bits("qfrc_passive")
-    hg = s.has_gravcomp()
+    passive_has, entry, has, gforces = parse_gcstage(out1[idx[("gc",)]], s.nbody)
+    fl = s.flagbits()
+    # the model constants ngravcomp / flg_gravcomp of the compiled model (read by harness/c/c29_gate.c)
+    if flags_impl is not None:
+        cases.append((gcflags_line(s.bits("body_gravcomp")), flags_impl, "m->ngravcomp m->flg_gravcomp after mj_compile", out1[idx[("gf",)]]))
     for i in range(s.nv):
         cases.append(("accum %s %d%s" % (base_s[i], len(terms_s[i]) // 2, "".join(" " + x for x in terms_s[i])), es[i], "qfrc_spring[%d]" % i))
         cases.append(("accum %s %d%s" % (base_d[i], len(terms_d[i]) // 2, "".join(" " + x for x in terms_d[i])), ed[i], "qfrc_damper[%d]" % i))
-        g = (" " + eg[i]) if (hg and not s.actgc[s.djnt[i]]) else ""
-        cases.append(("psum %s %s%s" % (es[i], ed[i], g), ep[i], "qfrc_passive[%d]" % i))
+        g = (" " + eg[i]) if (passive_has and not s.actgc[s.djnt[i]]) else ""
+        cases.append(("g:psum %s %s %s%s" % (fl, es[i], ed[i], g), ep[i], "qfrc_passive[%d]" % i))
+    if not passive_has:
+        # the Lean model says mj_gravcomp applies nothing: the vector keeps the +0.0 it was cleared to
+        cases.append((gcstage_line(s, s.bits("body_gravcomp")), " ".join(eg), "qfrc_gravcomp (has_gravcomp = 0 in the model: stays cleared)",
+                      " ".join([fbits(0.0)] * s.nv)))
     # gravity compensation on the translational dofs of top-level free joints: J = identity there, so the entry is the
     # sum of the compensation forces of the bodies of that subtree, in body order
+    hg = passive_has
     if hg:
         gb, mb, cb = s.bits("opt.gravity"), s.bits("body_mass"), s.bits("body_gravcomp")
         for j in range(s.njnt):
@@ -426,7 +597,7 @@ def lean_lines_pass2(s, out1, idx):
                 a = b
                 while a != 0 and a != root:
                     a = s.parent[a]
-                if a == root and s.gc[b] != 0:
+                if a == root and gforces[b - 1] is not None:     # bodies the Lean body loop applies a force to
                     sub.append(b)
             if not sub:
                 continue
@@ -475,13 +646,163 @@ def oracle_snapshot(s, fail, rp, stats):
         fail("c29:gravcomp-without-gravity", "qfrc_gravcomp non-zero although gravity compensation is off", rp)
 
 
-def run_models(ctx, exe, drv, nmodels):
-    stats = {"models": 0, "snapshots": 0, "bitwise_cases": 0, "bitwise_bad": 0, "max_dev_spring": 0.0, "max_dev_damper": 0.0,
-             "dissipation_checked": 0, "fd_checked": 0, "max_fd_dev": 0.0, "gravcomp_xfrc_checked": 0, "max_gravcomp_dev": 0.0,
-             "gravcomp_uniform_checked": 0, "rest_checked": 0, "joint_types": {}, "tendons": 0, "poly_models": 0, "variants": {},
-             "actuator_damping_modes": {}}
+class LeanDrv:
+    """one drv_c29 process for the whole run (the driver answers and flushes line by line)"""
+
+    def __init__(self, exe):
+        self.p = subprocess.Popen([exe], stdin=subprocess.PIPE, stdout=subprocess.PIPE, stderr=subprocess.DEVNULL, text=True, bufsize=1)
+        self.lines = 0
+
+    def call(self, lines):
+        out = []
+        for l in lines:
+            try:
+                self.p.stdin.write(l + "\n")
+                self.p.stdin.flush()
+                o = self.p.stdout.readline()
+            except (BrokenPipeError, OSError) as e:
+                raise common.Infra("drv_c29 died: %r" % (e,))
+            if not o.endswith("\n"):
+                raise common.Infra("drv_c29 stopped answering (rc=%r) at %r" % (self.p.poll(), l[:200]))
+            o = o[:-1]
+            if o == "bad-op":
+                raise common.Infra("drv_c29 rejected %r" % l[:300])
+            out.append(o)
+        self.lines += len(lines)
+        return out
+
+    def close(self):
+        try:
+            self.p.stdin.close()
+            self.p.wait(timeout=30)
+        except Exception:
+            self.p.kill()
+
+
+KEY_ACTGC = "c29:actgravcomp-dropped-without-actuators"
+KEY_NEGGC = "c29:gravcomp-negative-only-dropped"
+
+
+def gate_experiments(gate_exe, text, s, st, rng, fail, rp, stats):
+    """harness/c/c29_gate.c on one model: the model constants ngravcomp / flg_gravcomp after mj_compile and after a
+    runtime edit of body_gravcomp followed by mj_setConst, and the END-TO-END clause of the property: the generalized
+    force that gravity compensation adds to the dynamics (qfrc_smooth with the model's gravcomp minus qfrc_smooth with
+    gravcomp = 0, i.e. through qfrc_passive or, for actgravcomp joints, qfrc_actuator) equals J^T(-gravcomp m g) as the
+    engine's own applied-force path computes it (xfrc_applied at the body COMs).
+    Returns {"flags0", "flags1", "gc1", "G1"} for the tie with the Lean model, or None if the harness failed."""
+    zeros_b = [0.0] * s.nbody
+    # runtime edit: a fresh structured placement on the compiled body ids
+    mode1, placed = choose_placement(rng, s.nbody, s.jointed(), s.parent)
+    if rng.random() < 0.15:
+        mode1, placed = "none", {}
+    gc1 = [placed.get(b, 0.0) for b in range(s.nbody)]
+
+    def law(gc):
+        xf = [0.0] * (6 * s.nbody)
+        for b in range(1, s.nbody):
+            for i in range(3):
+                xf[6 * b + i] = -gc[b] * s.mass[b] * s.grav[i]
+        return xf
+
+    cmds, tags = [], []
+
+    def C(c, tag=None):
+        cmds.append(c)
+        tags.append(tag)
+
+    def setstate():
+        C("set qpos " + fmtv(st["qpos"]))
+        C("set qvel " + fmtv(st["qvel"]))
+
+    def triple(gc, k):
+        setstate()
+        C("forward")
+        C("get qfrc_smooth", ("A", k))
+        C("get qfrc_gravcomp", ("G", k))
+        C("setgc " + fmtv(zeros_b))
+        C("forward")
+        C("get qfrc_smooth", ("B", k))
+        C("set xfrc_applied " + fmtv(law(gc)))
+        C("forward")
+        C("get qfrc_smooth", ("C", k))
+        C("set xfrc_applied " + fmtv([0.0] * (6 * s.nbody)))
+
+    C("flags", "flags0")
+    triple(s.gc, 0)
+    C("setgc " + fmtv(gc1))
+    C("setconst")
+    C("flags", "flags1")
+    C("get body_gravcomp", "gc1")
+    triple(gc1, 1)
+    inp = "model\n" + text.rstrip("\n") + "\n" + "\n".join(cmds) + "\n"
+    r = subprocess.run([gate_exe], input=inp, capture_output=True, text=True, timeout=600)
+    out = r.stdout.split("\n")
+    if out and out[-1] == "":
+        out.pop()
+    rpg = dict(rp, gate_commands=cmds, how_gate="feed `model` + description + `end`, then gate_commands, to harness/c/c29_gate.c "
+                                               "(setgc writes body_gravcomp, setconst calls mj_setConst)")
+    if r.returncode != 0 or len(out) != len(cmds) + 1 or not out[0].startswith("ok"):
+        fail("c29:engine-crash", "harness c29_gate failed (rc=%s, %d answers for %d commands): %s %s" % (r.returncode, len(out), len(cmds) + 1, out[:1], r.stderr[-300:]), rpg)
+        return None
+    res = {tg: o for tg, o in zip(tags, out[1:]) if tg is not None}
+    if any(o.startswith("error") or o == "bad-op" for o in out[1:]):
+        fail("c29:engine-crash", "harness c29_gate: %s" % [o for o in out[1:] if o.startswith("error") or o == "bad-op"][:2], rpg)
+        return None
+    limited_dofs = {i for i in range(s.nv) if s.actfrclimited[s.djnt[i]]}
+    for k, gc, label in ((0, s.gc, "compiled model"), (1, gc1, "after body_gravcomp := %r and mj_setConst" % (gc1,))):
+        A, B, Cc, G = F(res[("A", k)]), F(res[("B", k)]), F(res[("C", k)]), F(res[("G", k)])
+        on = s.has_gravcomp(gc)
+        sc = max([abs(x) for x in A + B + Cc] + [1e-9])
+        cls = s.gc_class(gc)
+        stats["gravcomp_placement_classes"][cls] = stats["gravcomp_placement_classes"].get(cls, 0) + 1
+        stats["gravcomp_endtoend_checked"] += 1
+        actgc_reported = False
+        for i in range(s.nv):
+            want = (Cc[i] - B[i]) if on else 0.0
+            # (1) the qfrc_gravcomp vector itself
+            dev = abs(G[i] - want) / sc
+            stats["max_gravcomp_dev"] = max(stats["max_gravcomp_dev"], dev)
+            if dev > 1e-10:
+                fail("c29:gravcomp-law", "%s (compensated bodies: %s): qfrc_gravcomp[%d] = %r but applying -gravcomp*m*g at the body COMs gives %r"
+                     % (label, cls, i, G[i], want), dict(rpg, dof=i, experiment=k))
+                break
+            # (2) what reaches the dynamics
+            if i in limited_dofs:
+                continue
+            got = A[i] - B[i]
+            dev = abs(got - want) / sc
+            if dev <= 1e-10:
+                stats["max_endtoend_dev"] = max(stats["max_endtoend_dev"], dev)
+                continue
+            j = s.djnt[i]
+            if s.actgc[j] and (s.nact == 0 or s.dA):
+                # recorded finding; the other dofs of the model are still checked
+                if not actgc_reported:
+                    actgc_reported = True
+                    fail(KEY_ACTGC, "%s: joint %d has actgravcomp and the model has %s: dof %d receives %r from gravity compensation instead of %r "
+                         "(neither qfrc_passive nor qfrc_actuator carries qfrc_gravcomp)" % (label, j, "no actuators" if s.nact == 0 else "mjDSBL_ACTUATION", i, got, want),
+                         dict(rpg, dof=i, experiment=k))
+                continue
+            fail("c29:gravcomp-not-cancelling", "%s (compensated bodies: %s): gravity compensation changes qfrc_smooth[%d] by %r, the compensated "
+                 "fraction of gravity is %r" % (label, cls, i, got, want), dict(rpg, dof=i, experiment=k))
+            break
+    stats["runtime_edit_modes"][mode1] = stats["runtime_edit_modes"].get(mode1, 0) + 1
+    return {"flags0": res["flags0"], "flags1": res["flags1"], "gc1": toks(res["gc1"]), "G1": toks(res[("G", 1)])}
+
+
+def new_stats():
+    return {"models": 0, "snapshots": 0, "bitwise_cases": 0, "bitwise_bad": 0, "max_dev_spring": 0.0, "max_dev_damper": 0.0,
+            "dissipation_checked": 0, "fd_checked": 0, "max_fd_dev": 0.0, "gravcomp_xfrc_checked": 0, "max_gravcomp_dev": 0.0,
+            "gravcomp_uniform_checked": 0, "rest_checked": 0, "joint_types": {}, "tendons": 0, "poly_models": 0, "variants": {},
+            "actuator_damping_modes": {}, "gravcomp_endtoend_checked": 0, "max_endtoend_dev": 0.0, "gravcomp_placement_classes": {},
+            "runtime_edit_modes": {}, "placement_modes": {}, "switches": {}, "actgravcomp_joints": 0}
+
+
+def run_models(ctx, exe, gate_exe, drv_exe, nmodels):
+    stats = new_stats()
     failures = {}
     mism = []
+    drv = LeanDrv(drv_exe)
 
     def fail(key, what, replay):
         failures[key] = failures.get(key, 0) + 1
@@ -489,7 +810,7 @@ def run_models(ctx, exe, drv, nmodels):
             ctx.oracle_failure(key, what, replay)
 
     for mi in range(nmodels):
-        variant = ("plain", "nogravity", "uniform", "plain", "nogravity")[mi % 5]
+        variant = ("plain", "nogravity", "uniform", "placed", "nogravity", "placed")[mi % 6]
         mdl = make_model(ctx, variant)
         if mdl.nv == 0:
             continue
@@ -518,6 +839,11 @@ def run_models(ctx, exe, drv, nmodels):
         stats["models"] += 1
         stats["snapshots"] += 1
         stats["variants"][variant] = stats["variants"].get(variant, 0) + 1
+        if mdl.placement:
+            stats["placement_modes"][mdl.placement] = stats["placement_modes"].get(mdl.placement, 0) + 1
+        sw = "".join(c for c, on in (("S", s.dS), ("D", s.dD), ("G", s.dG)) if on) or "-"
+        stats["switches"][sw] = stats["switches"].get(sw, 0) + 1
+        stats["actgravcomp_joints"] += sum(1 for x in s.actgc if x)
         stats["tendons"] += s.ntendon
         for t in s.jtype:
             stats["joint_types"][str(t)] = stats["joint_types"].get(str(t), 0) + 1
@@ -527,20 +853,27 @@ def run_models(ctx, exe, drv, nmodels):
                 stats["actuator_damping_modes"][mode] = stats["actuator_damping_modes"].get(mode, 0) + 1
         if any(x != 0 for x in s.jpoly + s.dpoly + s.tkpoly + s.tbpoly):
             stats["poly_models"] += 1
+        # ---- gates of gravity compensation on the real code (model constants, runtime edit, end-to-end clause)
+        gate = gate_experiments(gate_exe, text, s, st, rng, fail, rp, stats) if gate_exe else None
         # ---- T: bitwise per-dof differential against the Lean model
-        l0 = lean_lines_pass0(s)
-        rc0, o0, e0 = ctx.run_lines([drv], l0)
-        if rc0 != 0 or len(o0) != len(l0) or any(x == "bad-op" for x in o0):
-            raise common.Infra("drv_c29 failed on effdamp lines: " + e0[-300:])
+        o0 = drv.call(lean_lines_pass0(s))
         l1, idx = lean_lines_pass1(s, o0)
-        rc1, o1, e1 = ctx.run_lines([drv], l1)
-        if rc1 != 0 or len(o1) != len(l1):
-            raise common.Infra("drv_c29 failed: " + e1[-300:])
-        cases = lean_lines_pass2(s, o1, idx)
-        rc2, o2, e2 = ctx.run_lines([drv], [c[0] for c in cases])
-        if rc2 != 0 or len(o2) != len(cases):
-            raise common.Infra("drv_c29 failed: " + e2[-300:])
-        for (line, want, what), got in zip(cases, o2):
+        o1 = drv.call(l1)
+        cases = lean_lines_pass2(s, o1, idx, gate["flags0"] if gate else None)
+        if gate:
+            cases.append((gcflags_line(gate["gc1"]), gate["flags1"], "m->ngravcomp m->flg_gravcomp after a runtime edit of body_gravcomp and mj_setConst", None))
+            ph1 = parse_gcstage(drv.call([gcstage_line(s, gate["gc1"])])[0], s.nbody)[0]
+            if not ph1:
+                cases.append((gcstage_line(s, gate["gc1"]), " ".join(gate["G1"]), "qfrc_gravcomp after the runtime edit (has_gravcomp = 0 in the model: stays cleared)",
+                              " ".join([fbits(0.0)] * s.nv)))
+        send = [c[0] for c in cases if len(c) == 3 or c[3] is None]
+        o2 = iter(drv.call(send))
+        first = None
+        for c in cases:
+            line, want, what = c[0], c[1], c[2]
+            got = next(o2) if (len(c) == 3 or c[3] is None) else c[3]
+            if first is None:
+                first = (c, got)
             stats["bitwise_cases"] += 1
             ctx.count((mi, what, line))
             # -0.0 vs +0.0: the engine clears entries with memset (+0.0) and skips joints without springs; the model
@@ -549,9 +882,9 @@ def run_models(ctx, exe, drv, nmodels):
                 stats["bitwise_bad"] += 1
                 if len(mism) < 20:
                     mism.append({"what": what, "line": line[:600], "model": got, "impl": want, "model_text": text, "qpos": st["qpos"], "qvel": st["qvel"]})
-        if stats["models"] <= 3 and cases:
-            ctx.sample({"variant": variant, "nv": s.nv, "ntendon": s.ntendon, "case": cases[0][2], "lean_line": cases[0][0][:160],
-                        "engine_bits": cases[0][1], "lean_bits": o2[0]})
+        if stats["models"] <= 3 and first:
+            ctx.sample({"variant": variant, "nv": s.nv, "ntendon": s.ntendon, "case": first[0][2], "lean_line": first[0][0][:160],
+                        "engine_bits": first[0][1], "lean_bits": first[1]})
         # ---- S: oracle on the engine's values alone
         oracle_snapshot(s, fail, rp, stats)
         # follow-up experiments need further engine runs
@@ -645,6 +978,8 @@ def run_models(ctx, exe, drv, nmodels):
             stats["rest_checked"] += 1
             if any(abs(x) > 1e-13 * ksc for x in rs):
                 fail("c29:force-at-rest", "at qpos = qpos_spring (tendons inside their deadbands), qvel = 0: qfrc_spring = %r" % (rs,), rp)
+    drv.close()
+    stats["lean_driver_lines"] = drv.lines
     stats["failure_keys"] = failures
     return stats, mism
 
@@ -659,11 +994,44 @@ def probe_negative_damping(exe):
     return {"compiles": bool(out and out[0].startswith("ok")), "qfrc_damper_at_qvel_1": out[4] if len(out) > 4 else None}
 
 
+def probe_negative_gravcomp(gate_exe, fail):
+    """the compiler accepts a negative gravcomp; setFixed counts `gravcomp > 0` while the body loop of mj_gravcomp tests
+    `gravcomp != 0`: is the force of a body with a negative coefficient applied or not depending on OTHER bodies?"""
+    def desc(extra):
+        d = ["body 1 0", "name 1 b", "set 1 pos 0 0 1", "set 1 gravcomp -0.5", "joint 2 1", "name 2 j", "set 2 type %d" % JHINGE,
+             "set 2 axis 0 1 0", "geom 3 1", "set 3 type %d" % E("mjGEOM_SPHERE"), "set 3 size 0.1", "set 3 pos 0.3 0 0"]
+        if extra:
+            # a body welded to the world (cannot contribute to any dof) with a tiny positive coefficient
+            d += ["body 4 0", "name 4 w", "set 4 pos 2 0 0", "set 4 gravcomp 0.001", "geom 5 4", "set 5 type %d" % E("mjGEOM_SPHERE"), "set 5 size 0.1"]
+        return "\n".join(d) + "\nend"
+    vals = []
+    for extra in (False, True):
+        inp = "model\n" + desc(extra) + "\nflags\nforward\nget qfrc_gravcomp\n"
+        r = subprocess.run([gate_exe], input=inp, capture_output=True, text=True, timeout=120)
+        out = r.stdout.split("\n")
+        if r.returncode != 0 or len(out) < 4 or not out[0].startswith("ok"):
+            return {"compiles": False, "output": out[:2]}
+        vals.append((out[1], F(out[3])[0]))
+    rec = {"compiles": True, "alone": {"flags": vals[0][0], "qfrc_gravcomp": vals[0][1]},
+           "with_unrelated_positive_body": {"flags": vals[1][0], "qfrc_gravcomp": vals[1][1]}}
+    if vals[0][1] != vals[1][1]:
+        fail(KEY_NEGGC, "hinge body with gravcomp = -0.5: qfrc_gravcomp = %r (ngravcomp flg_gravcomp = %s); after adding a body welded to the world with "
+             "gravcomp = 0.001 the SAME dof gets %r (= +0.5 x weight torque, flags %s): setFixed counts gravcomp > 0, mj_gravcomp applies gravcomp != 0"
+             % (vals[0][1], vals[0][0], vals[1][1], vals[1][0]),
+             {"model_alone": desc(False), "model_with_unrelated_positive_body": desc(True),
+              "how": "feed `model` + description, `forward`, `get qfrc_gravcomp` to harness/c/c29_gate.c"})
+    return rec
+
+
 def run(ctx):
     quick = ctx.tier != "thorough"
     ctx.rule = ("generated models (free/ball/slide/hinge joints with linear and polynomial stiffness / damping, fixed and spatial tendons with "
-                "springlength deadbands, gravcomp, actgravcomp joints; variants plain / nogravity / uniform-gravcomp) at random states; a case is one "
-                "(model, dof, quantity) bit comparison; oracle per model: laws, passive sum, dissipation, energy finite differences, gravcomp, rest")
+                "springlength deadbands, gravcomp, actgravcomp joints, the switches mjDSBL_SPRING / DAMPER / GRAVITY; variants plain / nogravity / "
+                "uniform-gravcomp / placed = gravcomp on a structured subset of the bodies (only jointless bodies welded to moving ones, only jointed, "
+                "single, only world-fixed, leaves, mixed) with extra payload bodies and arbitrary gravity directions) at random states; every model "
+                "additionally after a runtime edit of body_gravcomp + mj_setConst; a case is one (model, dof, quantity) or (model, derived constant) "
+                "bit comparison; oracle per model: laws, passive sum, dissipation, energy finite differences, gravcomp law and its end-to-end effect "
+                "on qfrc_smooth, rest")
     import time
     T, t0 = {}, [time.time()]
 
@@ -687,19 +1055,63 @@ def run(ctx):
     lap("kernel_validation")
     drv = ctx.driver("drv_c29")
     exe = ctx.harness("harness/c/engine_repl.c", "engine_repl", deps=["harness/mjbuild.h"])
-    if drv and exe:
-        stats, mism = run_models(ctx, exe, drv, 40 if quick else 600)
+    gate_exe = ctx.harness("harness/c/c29_gate.c", "c29_gate", deps=["harness/mjbuild.h"])
+    if drv and exe and gate_exe:
+        stats, mism = run_models(ctx, exe, gate_exe, drv, 48 if quick else 720)
         ok = stats["bitwise_bad"] == 0 and stats["bitwise_cases"] > 0
         import json
-        ctx.oblige("correspondence Lean passive-force model (Float) vs qfrc_spring / qfrc_damper / qfrc_passive / qfrc_gravcomp of the real engine, bitwise (%d cases)" % stats["bitwise_cases"],
+        ctx.oblige("correspondence Lean passive-force model (Float) vs qfrc_spring / qfrc_damper / qfrc_passive / qfrc_gravcomp and the derived constants "
+                   "ngravcomp / flg_gravcomp (after mj_compile and after mj_setConst) of the real engine, bitwise (%d cases)" % stats["bitwise_cases"],
                    "correspondence", ok, json.dumps(mism[:4])[:3000])
         ctx.disagreements += [dict(m, stream="passive") for m in mism[:20]]
         stats["negative_damping_probe"] = probe_negative_damping(exe)
+
+        def fail_probe(key, what, replay):
+            stats["failure_keys"][key] = stats["failure_keys"].get(key, 0) + 1
+            ctx.oracle_failure(key, what, replay)
+        stats["negative_gravcomp_probe"] = probe_negative_gravcomp(gate_exe, fail_probe)
         ctx.extra["passive_oracle"] = stats
         lap("engine_differential_and_oracle")
         ctx.extra["max_float_deviation"] = {"spring_rel": stats["max_dev_spring"], "damper_rel": stats["max_dev_damper"],
                                             "fd_rel": stats["max_fd_dev"], "gravcomp_rel": stats["max_gravcomp_dev"],
+                                            "gravcomp_endtoend_rel": stats["max_endtoend_dev"],
                                             "tolerances": {"law": RTOL, "fd": FD_TOL, "gravcomp": 1e-10}}
+
+        def directed(c):
+            """a tie / proof obligation broke but the sampled oracle found nothing: search the structured placements harder"""
+            import random
+            r = random.Random(c.seed * 7919 + 29)
+            found = []
+
+            def f(key, what, replay):
+                if key not in (KEY_ACTGC, KEY_NEGGC):
+                    found.append({"key": key, "what": what, "replay": replay})
+            st2 = new_stats()
+            for k in range(120 if quick else 600):
+                mdl = make_model(c, "placed", rng=r)
+                if mdl.nv == 0:
+                    continue
+                stt = mdl.random_state(r)
+                text = mdl.text()
+                R = Repl(exe)
+                R.cmd("model\n" + text.rstrip("\n"), "model")
+                for fld in MODEL_FIELDS:
+                    R.cmd("getm " + fld, ("m", fld))
+                R.cmd("data 0")
+                R.cmd("set 0 qpos " + fmtv(stt["qpos"]))
+                R.cmd("set 0 qvel " + fmtv(stt["qvel"]))
+                R.cmd("forward 0", "fwd")
+                for fld in DATA_FIELDS:
+                    R.cmd("get 0 " + fld, ("s0", fld))
+                rc, out, res, err = R.run()
+                if rc != 0 or len(out) != len(R.cmds) or not res["model"].startswith("ok") or res["fwd"].startswith("error"):
+                    continue
+                sn = Snapshot(res, "s0")
+                gate_experiments(gate_exe, text, sn, stt, r, f, {"model": text, "qpos": stt["qpos"], "qvel": stt["qvel"], "variant": "placed (directed search)"}, st2)
+                if found:
+                    return found[0]
+            return None
+        ctx.directed_search = directed
 
 
 if __name__ == "__main__":
